@@ -43,11 +43,12 @@ Section Edit.
               | None => None
               end.
 
-  (** set_radius: on a surface that is not flat only the radius changes, and it reads back *)
-  Theorem set_radius_exact_partial (l : lens) v k l' :
+  (** set_radius: only the radius changes and it reads back; a flat surface becomes a StandardGeometry that
+      keeps the conic constant it read before *)
+  Theorem set_radius_exact (l : lens) v k l' :
     set_radius l v k = Some l' ->
     edits_only l l' k (fun s => match s_kind s with
-                                | GPlane => with_geom s GStd v (Some (ofZ 0)) (s_c s)
+                                | GPlane => with_geom s GStd v (Some (conic_read s)) (s_c s)
                                 | g => with_geom s g v (s_k s) (s_c s)
                                 end) /\
     (forall s, nth_error (surfs l) (Z.to_nat k) = Some s -> s_kind s <> GPlane ->
@@ -58,6 +59,29 @@ Section Edit.
     - split; [apply upd_surf_rest|]. intros j. apply upd_surf_nth.
     - intros s Hs Hp. rewrite upd_surf_nth, Hs. rewrite Z2Nat.id by exact Hk. rewrite Z.eqb_refl.
       destruct (s_kind s); try reflexivity. contradiction.
+  Qed.
+
+  (** the edit function of set_radius leaves every other read-out of the surface alone *)
+  Lemma set_radius_fun_frame (v : T) (s : surf) :
+    let s' := match s_kind s with
+              | GPlane => with_geom s GStd v (Some (conic_read s)) (s_c s)
+              | g => with_geom s g v (s_k s) (s_c s)
+              end in
+    s_R s' = v /\ conic_read s' = conic_read s /\ s_c s' = s_c s /\
+    s_x s' = s_x s /\ s_y s' = s_y s /\ s_z s' = s_z s /\ s_rx s' = s_rx s /\ s_ry s' = s_ry s /\
+    s_mpre s' = s_mpre s /\ s_mpost s' = s_mpost s /\ s_stop s' = s_stop s /\ s_refl s' = s_refl s /\
+    s_obj s' = s_obj s.
+  Proof. cbv zeta. destruct (s_kind s); cbn; repeat split; reflexivity. Qed.
+
+  Theorem set_radius_keeps_conic (l : lens) v k l' :
+    set_radius l v k = Some l' ->
+    map conic_read (surfs l') = map conic_read (surfs l) /\ map s_c (surfs l') = map s_c (surfs l) /\
+    positions l' = positions l /\ n_post l' = n_post l.
+  Proof.
+    unfold set_radius. destruct (nthS l k) as [s0|]; [|discriminate]. intros H; injection H as <-.
+    unfold positions, n_post, index_of, upd_surf, with_surfs. cbn [surfs mats].
+    repeat split; apply map_enumZ_preserve; intros j x; destruct (j =? k)%Z; try reflexivity;
+      destruct (s_kind x); reflexivity.
   Qed.
 
   Theorem set_conic_exact (l : lens) v k l' :
